@@ -10,7 +10,7 @@ from ..core import Result, fs, F
 ID = "C04"
 RULE = ("instance generator of C02 biased to adversarial cost ratios: negative arc costs, heuristic high costs in {0,1,10,40,1000} far above or "
         "below arc costs, vehicle counts too small (so that dummy vehicles / arcs / routes are added); optimisation mode with the default penalty; "
-        "all 2^n vectors for n <= 16 (thorough 18): argmin set of the QUBO = argmin set of the objective over the feasible set, equal minima; "
+        "all 2^n vectors for n <= 18 (both tiers): argmin set of the QUBO = argmin set of the objective over the feasible set, equal minima; "
         "non-trivial = feasible set non-empty and n >= 2 and not every vector feasible; distinct = distinct case")
 ASSUMPTIONS = [
     "the constrained program is feasible (hypothesis of the property); infeasible instances are counted and skipped",
